@@ -32,7 +32,7 @@ def cases(tier):
     for k in range(len(MSGKINDS)):
         for reg in ('before', 'middle', 'unregister'):
             out.append({'fn': 'run_messages', 'id': f'messages/{MSGKINDS[k]}/{reg}', 'params': {'first': k, 'depth': depth, 'reg': reg}})
-    for pname, cand in (('pf', 'float'), ('pf', 'int'), ('pi', 'int'), ('pe', 'smallint'), ('pb', 'bool'), ('ps', 'struct'), ('pa', 'array'),
+    for pname, cand in (('pf', 'float'), ('pf', 'int'), ('pi', 'int'), ('pbig', 'bigint'), ('pe', 'smallint'), ('pb', 'bool'), ('ps', 'struct'), ('pa', 'array'),
                         ('target', 'float'), ('pstr', 'str')):
         out.append({'fn': 'run_end_to_end', 'id': f'end-to-end/{pname}/{cand}', 'params': {'pname': pname, 'cand': cand}})
     out.append({'fn': 'run_command', 'id': 'end-to-end/command', 'params': {}})
@@ -89,7 +89,7 @@ def run_messages(env, p):
     clock = C.VirtualClock(env.real('now', 1000, 2000))
     cl = make_client(env, desc, clock)
     K = 'C12/messages'
-    calls = {'node': [], 'module': [], 'param': [], 'other-param': []}
+    calls = {'node': [], 'module': [], 'param': [], 'other-param': [], 'oneshot': [], 'after-oneshot': []}
 
     def cb(level):
         def updateItem(module, parameter, item):
@@ -100,6 +100,17 @@ def run_messages(env, p):
     def register():
         n0 = {k: len(v) for k, v in calls.items()}
         cl.register_callback(None, cbs['node'])
+        # a one-shot callback (documented mechanism: raise UnregisterCallback) followed by a persistent one on the same key
+        from frappy.client import UnregisterCallback
+
+        def oneshot(module, parameter, item):
+            calls['oneshot'].append((module, parameter, item))
+            raise UnregisterCallback()
+
+        def after_oneshot(module, parameter, item):
+            calls['after-oneshot'].append((module, parameter, item))
+        cl.register_callback('m', updateItem=oneshot)
+        cl.register_callback('m', updateItem=after_oneshot)
         cl.register_callback('m', cbs['module'])
         cl.register_callback(('m', 'pf'), cbs['param'])
         cl.register_callback(('m', 'pi'), cbs['other-param'])
@@ -118,6 +129,7 @@ def run_messages(env, p):
         registered = True
     expect = {}     # (module, param) -> ('ok', value, t) | ('err', cls name, t)
     nmsg = {'node': 0, 'module': 0, 'param': 0, 'other-param': 0}
+    relevant_since_registration = 0
     for step in range(p['depth']):
         if p['reg'] == 'middle' and step == 1:
             register()
@@ -125,6 +137,7 @@ def run_messages(env, p):
         if p['reg'] == 'unregister' and step == p['depth'] - 1 and registered:
             cl.unregister_callback(('m', 'pf'), cbs['param'])
             cl.unregister_callback('m', cbs['module'])
+            cl.unregister_callback('m', updateItem=[f for f in cl.callbacks['updateItem'].get('m', []) if f.__name__ == 'after_oneshot'][0])
             registered = 'node-only'
         kind = MSGKINDS[p['first'] if step == 0 else env.choice(f'kind{step}', len(MSGKINDS))]
         x = env.real(f'x{step}', -1e6, 1e6)
@@ -187,6 +200,10 @@ def run_messages(env, p):
             env.check(got['module'] == want_mod, K + f'/{kind}/module-callback-count', got)
             env.check(got['param'] == want_par, K + f'/{kind}/parameter-callback-count', got)
             env.check(got['other-param'] == 0, K + f'/{kind}/callback-for-other-parameter', got)
+            relevant_since_registration += want_node
+            # the callback registered after a one-shot callback sees every message, the one-shot exactly one in total
+            env.check(got['after-oneshot'] == want_mod, K + f'/{kind}/callback-after-one-shot-callback-skipped', got)
+            env.check(len(calls['oneshot']) <= 1, K + f'/{kind}/one-shot-callback-called-again', len(calls['oneshot']))
             if got['node'] == 1 and key is not None:
                 mo, pa, item = calls['node'][-1]
                 env.check((mo, pa) == key and item is cl.cache[key], K + f'/{kind}/callback-argument')
@@ -213,6 +230,9 @@ def run_end_to_end(env, p):
         v = env.real('v', spec[0], spec[1])
     elif cand == 'int':
         v = env.int('v', -3, 7) if pname == 'pf' else env.int('v', -3, 12)
+    elif cand == 'bigint':
+        v = env.int('v', 2 ** 53 + 1, 2 ** 62)
+        env.assume(v % 2 == 1)
     elif cand == 'smallint':
         v = [1, 2, 5][env.choice('v', 3)]
     elif cand == 'bool':
